@@ -529,7 +529,7 @@ pub fn run(r: &Report) {
          all 42 (+132 thorough) valid shapes with 6 (7) leaves and their single-position +-1 perturbations; per leaf: control block == \
          reference path, size/serialization/round trip, verification, and rejection under every single perturbation (other script, \
          version, parity, each sibling altered/dropped, sibling appended/swapped, other output / internal key); output key via an \
-         independent secp path; key-pair tweak; (ii) chains of depth 126..130; (iii) Huffman: all weight vectors over {0,1,2,3,7}^n, n<=5(6), \
+         independent secp path; key-pair tweak; (ii) chains of depth 126..130 (deepest pair leaf+leaf, hidden+hidden with the only leaf at depth 1, hidden+leaf; both orders); (iii) Huffman: all weight vectors over {0,1,2,3,7}^n, n<=5(6), \
          {1,MAX}^n, with and without a duplicate script, and all multisets of 2..5(6) weights over 8 values between 2^30 and 2^32-1 (partial sums beyond u32) x 6 (24) script families (hash tie-breaks). non-trivial = distinct accepted trees / weight vectors",
     );
     explore_builder(r, n_max);
@@ -607,6 +607,28 @@ pub fn run(r: &Report) {
         m.push((depth, Kind::Leaf(vec![0x51], 0xc4)));
         m.push((depth, Kind::Leaf(vec![0x52], 0xc4)));
         check_listing(r, &m, false);
+        if depth >= 3 {
+            // over-deep (or just deep enough) subtrees made of HIDDEN nodes only, the single leaf at depth 1 (both
+            // orders), and a deepest pair made of one leaf and one hidden node
+            let mut h: Vec<(usize, Kind)> = vec![(depth, Kind::Hidden(gen::pat32(200))), (depth, Kind::Hidden(gen::pat32(201)))];
+            for d in (2..depth).rev() {
+                h.push((d, Kind::Hidden(gen::pat32(d))));
+            }
+            h.push((1, Kind::Leaf(vec![0x53], 0xc4)));
+            check_listing(r, &h, false);
+            let mut hm: Vec<(usize, Kind)> = vec![(1, Kind::Leaf(vec![0x53], 0xc4))];
+            for d in 2..depth {
+                hm.push((d, Kind::Hidden(gen::pat32(d))));
+            }
+            hm.push((depth, Kind::Hidden(gen::pat32(200))));
+            hm.push((depth, Kind::Hidden(gen::pat32(201))));
+            check_listing(r, &hm, false);
+            let mut x: Vec<(usize, Kind)> = vec![(depth, Kind::Hidden(gen::pat32(202))), (depth, Kind::Leaf(vec![0x54], 0xc0))];
+            for d in (1..depth).rev() {
+                x.push((d, Kind::Hidden(gen::pat32(d))));
+            }
+            check_listing(r, &x, false);
+        }
     }
     // single node at depth 0 (tree with one leaf) and key-only spends
     check_listing(r, &[(0, Kind::Leaf(vec![0x51], 0xc4))], true);
